@@ -304,7 +304,7 @@ PROPS = {
     },
     "C16": {
         "units": ["tptpnum", "ensure", "ext", "subst", "tau", "nat", "outline", "seq", "strong", "gamma", "break", "simp_int", "simp_cl", "apply", "problem", "prover", "files"],
-        "bounded_checks": ["external", "applic"],
+        "bounded_checks": ["external", "applic", "crash"],
         "level": "other",
         "property_obligations": ["numeral_arm", "callsite_roles_checked_before_routing"],
         "carriers": [],
